@@ -536,6 +536,12 @@ impl BidiFlowControl {
         }
     }
 
+    /// The local reader is going away for good: fail the remote writer, which
+    /// shares the read direction's credits.
+    pub(crate) fn reset_peer_writer(&self) {
+        self.read.reset();
+    }
+
     /// Whether `half` is one of the two directions of this connection.
     pub(crate) fn contains(&self, half: &Arc<FlowControl>) -> bool {
         Arc::ptr_eq(&self.write, half) || Arc::ptr_eq(&self.read, half)
